@@ -253,14 +253,19 @@ pub fn connector(
     tower::service_fn(move |uri: http::Uri| {
         let st = st.clone();
         Box::pin(async move {
-            st.invocations.fetch_add(1, Ordering::SeqCst);
+            let nth = st.invocations.fetch_add(1, Ordering::SeqCst);
             st.uris.lock().unwrap().push(uri.to_string());
             if st.delayed {
                 YieldOnce(false).await;
             }
             let mode = *st.mode.lock().unwrap();
             match mode {
-                ConnectMode::Fail => Err(io::Error::new(io::ErrorKind::ConnectionRefused, "scripted connect failure")),
+                ConnectMode::Fail => {
+                    // the reason an attempt fails rotates with the attempt number: refused, no such
+                    // socket file, timed out, not permitted, unreachable, unspecified
+                    const KINDS: [io::ErrorKind; 6] = [io::ErrorKind::ConnectionRefused, io::ErrorKind::NotFound, io::ErrorKind::TimedOut, io::ErrorKind::PermissionDenied, io::ErrorKind::AddrNotAvailable, io::ErrorKind::Other];
+                    Err(io::Error::new(KINDS[nth as usize % KINDS.len()], "scripted connect failure"))
+                }
                 ConnectMode::Hang => std::future::pending().await,
                 ConnectMode::Succeed => {
                     let (c, s) = pipe(1 << 16, &st.chop_client, &st.chop_server);
